@@ -559,6 +559,10 @@ def rich_schema(rng, long_names=None):
         if rng.random() < 0.6:
             lines.append(f"    period: {rng.choice([10, 20, 100])},")
         out.append(f"impl can for {sname} {{\n" + "\n".join(lines) + "\n}")
+        if rng.random() < 0.3:
+            # bindings of further protocols, some of them spelled like another one up to letter case: each protocol is a
+            # protocol of its own (own header, own set of messages), whatever a generator derives from the name
+            out.append(f"impl {rng.choice(['CAN', 'Can', 'uart', 'UART', 'Uart'])} for {sname} as {sname}x {{\n    id: {200 + k},\n}}")
     svcs = []
     for k in range(rng.randint(0, 3)):
         ms = ",\n".join(f"    method m{j}({rng.choice(structs)}) @ {j} returns {rng.choice(structs)}" for j in range(rng.randint(1, 3)))
